@@ -1,6 +1,10 @@
 import Percival.Proofs.AllocFail
 import Percival.Proofs.AFUTop
 import Percival.Proofs.AFUAcct
+import Percival.Proofs.AfStep
+import Percival.Proofs.UpStep
+import Percival.Proofs.AfMonSound
+import Percival.Proofs.UpMonSound
 /-!
 # C14 — allocation failure is reported, leaves objects unchanged and leaks nothing (proof-level part)
 
@@ -404,5 +408,272 @@ oracle that refuses the third request: six objects' worth of blocks before, noth
 example : (run wThird [.read 5, .read 5, .nbrInit 6, .nbrWait 6 100, .nbwInit 7, .nbwWrite 11 10, .http [.success] 47 9]).live.length = 11 ∧
     (teardown (run wThird [.read 5, .read 5, .nbrInit 6, .nbrWait 6 100, .nbwInit 7, .nbwWrite 11 10, .http [.success] 47 9])).live = [] := by
   decide
+
+/-! ## The executables: `pmodel af` = `Model.AfStep.stepOp`, `pmodel upmodel` = `Model.UpStep.stepOp`
+
+`Driver/Af.lean` and `Driver/Upmodel.lean` parse a line into a typed op, call `stepOp`, print its typed output.  The
+theorems below say that `stepOp` keeps the **states of the proved models themselves** (`HeapAlloc.HeapA`, `EvReg.Ev`,
+`Mem`; `AllocFail.World`) and moves them only by the functions the theorems above are about, so those theorems are
+about what the executable runs.  What `stepOp` adds is the harness' bookkeeping: which calls it refuses to make
+(`skip`), its handles, the caller's keys, the clock. -/
+
+open Percival.Model.AfStep Percival.Proofs.AfStep in
+/-- **`pmodel af`, event layer**: for every op on which the harness calls the event layer (`evCall`: `immReg`,
+`immCancel`, `tmReg` at the harness' clock, `tmCancel`, `netReg`, `netCancel`, `run` of `Model/EvReg.lean`, applied
+to the current event state and oracle), the new event state and oracle are exactly that call's, the line shows its
+status, the refusals it counted and the callbacks it ran, and heap, keys and clock are untouched. -/
+theorem exec_af_ev_step (s : AfStep.S) (op : Spec.AfMon.Op) (st : EvReg.NetRes) (ran : Option (List Nat))
+    (e' : EvReg.Ev) (m' : Mem) (h : evCall s op = some (st, ran, e', m')) :
+    (stepOp s op).1.ev = e' ∧ (stepOp s op).1.m = m' ∧
+    (stepOp s op).2 = .ev st (DsStep.rf s.m m') ran (evView e' s.m m') ∧
+    (stepOp s op).1.h = s.h ∧ (stepOp s op).1.keys = s.keys ∧ (stepOp s op).1.hlive = s.hlive ∧
+    (stepOp s op).1.now = s.now :=
+  stepOp_evCall s op st ran e' m' h
+
+/-- a timer registration at clock 1000000 under the schedule `failat 4`: the call is `tmReg`, it fails -/
+example : (Proofs.AfStep.evCall (AfStep.stepOp {} (.failat 4)).1 (.regTm 7 100)).map (·.1) = some .fail := by decide
+example : (Proofs.AfStep.evCall {} .run).map (fun r => (r.1, r.2.1)) = some (.ok, some []) := by decide
+
+open Percival.Model.AfStep Percival.Proofs.AfStep in
+/-- **`pmodel af`, pointer heap**: for every op on which the harness calls the heap (`heapCall`:
+`HeapAlloc.init` — after freeing a heap it still has —, `HeapAlloc.add` with the caller's keys, `Heap.getmin`,
+`HeapAlloc.delete … 0`, `HeapAlloc.free`), the new heap and oracle are exactly that call's, the line shows its
+status, its refusals and the element, and the event layer is untouched. -/
+theorem exec_af_heap_step (s : AfStep.S) (op : Spec.AfMon.Op) (ok : Bool) (id : Option (Option Nat))
+    (h' : Option HeapAlloc.HeapA) (m0 m' : Mem) (h : heapCall s op = some (ok, id, h', m0, m')) :
+    (stepOp s op).1.h = h' ∧ (stepOp s op).1.m = m' ∧
+    (stepOp s op).2 = .heap ok (DsStep.rf m0 m') id (hView h' m0 m') ∧
+    (stepOp s op).1.ev = s.ev ∧ (stepOp s op).1.now = s.now ∧ (stepOp s op).1.net = s.net :=
+  stepOp_heapCall s op ok id h' m0 m' h
+
+example : (Proofs.AfStep.heapCall (AfStep.stepOp {} .hInit).1 (.hAdd 5 7)).map (·.1) = some true := by decide
+
+open Percival.Model.AfStep Percival.Proofs.AfStep in
+/-- **`pmodel af`, everything else**: an op with neither call (a schedule or clock line, or an op the harness
+skips) leaves heap and event layer alone, consults the oracle not at all, and answers `ok` or `skip`.  (`end` is
+`AfStep.releaseAll`: `immCancel` / `tmCancel` of every registration, `netCancel` of every descriptor the harness
+registered, `EvReg.shutdown`, `HeapAlloc.free`.) -/
+theorem exec_af_no_call (s : AfStep.S) (op : Spec.AfMon.Op) (h1 : evCall s op = none) (h2 : heapCall s op = none)
+    (he : op ≠ .end_) :
+    (stepOp s op).1.h = s.h ∧ (stepOp s op).1.ev = s.ev ∧ (stepOp s op).1.m.n = s.m.n ∧
+    (stepOp s op).1.m.live = s.m.live ∧ (stepOp s op).1.m.refusals = s.m.refusals ∧
+    ((stepOp s op).2 = .word .ok ∨ (stepOp s op).2 = .word .skip) :=
+  stepOp_nocall s op h1 h2 he
+
+/-- a second registration of an id that is registered is skipped -/
+example : Proofs.AfStep.evCall (AfStep.stepOp {} (.regImm 7 3)).1 (.regImm 7 5) = none ∧
+    Proofs.AfStep.heapCall (AfStep.stepOp {} (.regImm 7 3)).1 (.regImm 7 5) = none := by decide
+
+open Percival.Model.AfStep in
+/-- **`register_failure_leaves_nothing` read off the executable**: when the line `pmodel af` prints for a
+registration (`reg_imm`, `reg_tm`, `reg_net`) that it makes does not say `ok`, what is registered in its state is
+exactly what was registered before.  (`hS`: the socket list is empty before `init()` of events_network.c — true
+of every state the executable reaches, `Proofs.EvRegNet.NetInv.uninit`.) -/
+theorem exec_af_register_failure_leaves_nothing (s : AfStep.S) (op : Spec.AfMon.Op)
+    (hop : (∃ i p, op = .regImm i p) ∨ (∃ i us, op = .regTm i us) ∨ (∃ i fd w, op = .regNet i fd w))
+    (hS : s.ev.sAlloc = none → s.ev.socks = [])
+    (hf : ∀ rfn ran l2, (stepOp s op).2 ≠ .ev .ok rfn ran l2) :
+    EvReg.registry (stepOp s op).1.ev = EvReg.registry s.ev := by
+  cases hc : Proofs.AfStep.evCall s op with
+  | none =>
+    have h2 : Proofs.AfStep.heapCall s op = none := by
+      rcases hop with ⟨i, p, rfl⟩ | ⟨i, us, rfl⟩ | ⟨i, fd, w, rfl⟩ <;> rfl
+    have he : op ≠ .end_ := by
+      rcases hop with ⟨i, p, rfl⟩ | ⟨i, us, rfl⟩ | ⟨i, fd, w, rfl⟩ <;> exact fun h => nomatch h
+    rw [(Proofs.AfStep.stepOp_nocall s op hc h2 he).2.1]
+  | some r =>
+    obtain ⟨st, ran, e', m'⟩ := r
+    obtain ⟨hev, _, hout, _⟩ := Proofs.AfStep.stepOp_evCall s op st ran e' m' hc
+    have hst : st ≠ .ok := fun h => hf _ _ _ (h ▸ hout)
+    rw [hev]
+    have hreg := register_failure_leaves_nothing s.ev
+    rcases hop with ⟨i, p, rfl⟩ | ⟨i, us, rfl⟩ | ⟨i, fd, w, rfl⟩
+    · simp only [Proofs.AfStep.evCall] at hc
+      split at hc
+      · cases hc
+      · cases hc
+        refine (hreg i p 0 false 0 0 s.m hS).1 ?_
+        cases hb : (EvReg.immReg s.ev i p s.m).1
+        · rfl
+        · exact absurd (by simp [boolRes, hb]) hst
+    · simp only [Proofs.AfStep.evCall] at hc
+      split at hc
+      · cases hc
+      · cases hc
+        refine (hreg i 0 0 false us s.now s.m hS).2.1 ?_
+        cases hb : (EvReg.tmReg s.ev i us s.now s.m).1
+        · rfl
+        · exact absurd (by simp [boolRes, hb]) hst
+    · simp only [Proofs.AfStep.evCall] at hc
+      split at hc
+      · cases hc
+      · cases hc
+        exact (hreg i 0 fd w 0 0 s.m hS).2.2 hst
+
+/-- `reg_net 2 4 0` under `failat 3`: the line says `fail rf=1`, and nothing is registered afterwards -/
+example : (AfStep.stepOp (AfStep.stepOp {} (.failat 3)).1 (.regNet 2 4 false)).2.ans = { head := .fail, ntoks := 2, rf := some 1 } ∧
+    EvReg.registry (AfStep.stepOp (AfStep.stepOp {} (.failat 3)).1 (.regNet 2 4 false)).1.ev = EvReg.registry ({} : EvReg.Ev) := by
+  decide
+
+open Percival.Model.AfStep in
+/-- **`heap_add_failure` read off the executable**: when `pmodel af` makes the call of `h_add` on a heap that
+satisfies the storage invariant and prints `fail`, its heap — elements, order, allocation — is exactly what it was,
+no block was allocated and exactly one request was refused. -/
+theorem exec_af_heap_add_failure (s : AfStep.S) (ha : HeapAlloc.HeapA) (e : Nat) (k : Int) (hh : s.h = some ha)
+    (hnew : (decide (e ≥ Spec.AfMon.MAXID) || s.hlive.contains e) = false) (hi : HInv ha)
+    (hsmall : 8 * (ha.h.a.size + 1) ≤ EArray.SIZE_MAX)
+    (hf : ∀ rfn id l2, (stepOp s (.hAdd e k)).2 ≠ .heap true rfn id l2) :
+    (stepOp s (.hAdd e k)).1.h = s.h ∧ (stepOp s (.hAdd e k)).1.m.live = s.m.live ∧
+    (stepOp s (.hAdd e k)).1.m.refusals = s.m.refusals + 1 := by
+  have hc : Proofs.AfStep.heapCall s (.hAdd e k) = some
+      ((HeapAlloc.add (Spec.AfMon.keyFn ((e, k) :: s.keys)) ha e s.m).1, none,
+       some (HeapAlloc.add (Spec.AfMon.keyFn ((e, k) :: s.keys)) ha e s.m).2.1, s.m,
+       (HeapAlloc.add (Spec.AfMon.keyFn ((e, k) :: s.keys)) ha e s.m).2.2) := by
+    simp only [Proofs.AfStep.heapCall, hh]
+    rw [if_neg (by rw [hnew]; exact Bool.false_ne_true)]
+  obtain ⟨h1, h2, h3, _⟩ := Proofs.AfStep.stepOp_heapCall s _ _ _ _ _ _ hc
+  have hfalse : (HeapAlloc.add (Spec.AfMon.keyFn ((e, k) :: s.keys)) ha e s.m).1 = false := by
+    cases hb : (HeapAlloc.add (Spec.AfMon.keyFn ((e, k) :: s.keys)) ha e s.m).1
+    · rfl
+    · exact absurd (hb ▸ h3) (hf _ _ _)
+  obtain ⟨g1, g2, g3⟩ := (heap_add_failure (Spec.AfMon.keyFn ((e, k) :: s.keys)) ha e s.m hi hsmall).2.1 hfalse
+  rw [h1, h2, g1, hh]
+  exact ⟨rfl, g2, g3⟩
+
+/-- `h_init; failfrom 1; h_add 5 7`: the add is made, fails, and the line says `fail rf=1` -/
+example : (AfStep.stepOp (AfStep.stepOp (AfStep.stepOp {} .hInit).1 (.failfrom 1)).1 (.hAdd 5 7)).2.ans =
+    { head := .fail, ntoks := 2, rf := some 1 } := by decide
+
+open Percival.Model.UpStep Percival.Proofs.UpStep in
+/-- **`pmodel upmodel`: the world moves only by `AllocFail.stepR`.**  When a protocol line stands for the library
+call `c` (`callOf`: the harness' handles resolved, its skip rules passed), `UpStep.call` is `stepR` (plus the
+object a start returns); if `stepR` says the call is outside the usage contract the state is left alone; otherwise
+the new world is `stepR`'s and the line shows `ok` / `fail` as `stepR` answers, with the refusals counted between
+the two worlds.  So `upper_failure_reported`, `upper_failure_leaves_nothing`, `upper_failure_needs_refusal`,
+`upper_retry_succeeds`, `upper_release_cannot_fail` speak about the very step the executable makes. -/
+theorem exec_up_step (s : UpStep.S) (op : UpStep.Op) (c : AllocFail.Op) (hc : callOf s op = some c) :
+    ((call s.w c).1, (call s.w c).2.2) = AllocFail.stepR s.w c ∧
+    ((AllocFail.stepR s.w c).1 = .contract → stepOp s op = (s, onContract s op)) ∧
+    ((AllocFail.stepR s.w c).1 ≠ .contract →
+      (stepOp s op).1.w = (AllocFail.stepR s.w c).2 ∧
+      (stepOp s op).2 = line ((AllocFail.stepR s.w c).1 == .ok) s.w (AllocFail.stepR s.w c).2) :=
+  ⟨call_eq_stepR s.w c, (stepOp_call s op c hc).1, (stepOp_call s op c hc).2⟩
+
+/-- `nr_start 0 0` stands for `network_read` on descriptor 64; under `failat 3` it fails with one refusal -/
+example : (UpStep.callOf {} (.start .read 0 0)).isSome = true ∧
+    (UpStep.stepOp (UpStep.stepOp {} (.failat 3)).1 (.start .read 0 0)).2.ans = { head := .fail, ntoks := 2, rf := some 1 } := by
+  decide
+
+open Percival.Model.UpStep Percival.Proofs.UpStep in
+/-- **`pmodel upmodel`, the other lines**: a line for which the harness makes no call is answered `skip` and
+changes nothing; a schedule line changes only the oracle's decision function; `end` is `AllocFail.run` on the
+harness' release calls (`releaseOps`: every handle's cancel / free, by kind and ascending handle) under the
+schedule `failoff`, followed by all exit handlers (`atexitAll`), and the line shows that world's `Mem.live`. -/
+theorem exec_up_other (s : UpStep.S) (op : UpStep.Op) :
+    (isCall op = true → callOf s op = none → stepOp s op = (s, .word .skip)) ∧
+    (isCall op = false → op ≠ .end_ → (stepOp s op).2 = .word .ok ∧
+      ∃ f, (stepOp s op).1 = { s with w := { s.w with m := { s.w.m with f := f } } }) ∧
+    (endWorld s = AllocFail.atexitAll (AllocFail.run { s.w with m := { s.w.m with f := DsStep.sched 0 0 0 } } (releaseOps s)) ∧
+      (stepOp s .end_).1.w.m.live = (endWorld s).m.live ∧
+      ∃ left, (stepOp s .end_).2 = .end_ (endWorld s).m.live (endWorld s).m.n left) :=
+  ⟨stepOp_skip s op, stepOp_sched s op, rfl, (stepOp_end s).1, (stepOp_end s).2.2.2.2⟩
+
+/-- a read and a connect with a timeout are started, then `end`: 0 live blocks -/
+example : (UpStep.stepOp (UpStep.stepOp (UpStep.stepOp {} (.start .read 0 0)).1 (.ncStart 0 [.success] (some 5))).1 .end_).2.ans =
+    { head := .end_, ntoks := 3, live := some 0, leaked := some 0 } := by decide +kernel
+
+/-! ## Monitor soundness: `pmodel afmon` (`Spec.AfMon.monStep`) raises no false alarm on the model
+
+The monitor judges the *implementation's* answers on ideal objects (multiset of heap elements with keys, ideal
+registry).  The theorems below say that it accepts every answer `Model.AfStep.stepOp` gives (read through
+`Out.ans`, i.e. as `Driver/Afmon.lean` parses the line `Driver/Af.lean` prints — `KAT/AfAns.lean`), so code that
+behaves like the proved model is never reported.  `Proofs.AfMonSound.Rel s ms` relates the two states: the
+monitor's live elements and keys are the model's heap (which satisfies C13's heap invariant), its registry is what
+is registered in the model's event layer, every timer's queue record carries the deadline the monitor remembers,
+and `Mem.live` is exactly the blocks the event layer and the heap hold. -/
+
+open Percival.Proofs.AfMonSound Percival.Proofs.AfMonRel in
+/-- **One line**: from related states, for every op other than `end` (with an immediate priority below 32:
+`OpOk`, asserted by the C), the monitor accepts the model's answer — in particular a `fail` always comes with
+`rf > 0`, `getmin` / `deletemin` answer a least element, EEXIST / ENOENT are answered exactly when the ideal
+registry says so, `events_run` ran exactly the callbacks the ideal registry allows, in an admissible order — and
+the states are related again. -/
+theorem monitor_accepts_model_step (s : AfStep.S) (ms : Spec.AfMon.MState) (op : Spec.AfMon.Op)
+    (hop : op ≠ .end_) (hok : Proofs.AfMonEnd.OpOk op) (h : Rel s ms) :
+    (Spec.AfMon.monStep ms op (AfStep.stepOp s op).2.ans).2 = none ∧
+    Rel (AfStep.stepOp s op).1 (Spec.AfMon.monStep ms op (AfStep.stepOp s op).2.ans).1 :=
+  step_sound s ms op hop hok h
+
+/-- the relation holds initially, and the monitor is not trivial: a `ptrheap_init` that fails without a refused
+request is rejected, a refused one is accepted -/
+example : Proofs.AfMonSound.Rel {} {} := Proofs.AfMonSound.rel_init
+example : (Spec.AfMon.monStep {} .hInit { head := .fail, ntoks := 2, rf := some 0 }).2 ≠ none ∧
+    (Spec.AfMon.monStep {} .hInit { head := .fail, ntoks := 2, rf := some 1 }).2 = none := by decide
+
+open Percival.Proofs.AfMonSound in
+/-- **`end`**: from related states the model's `release_all` leaves no block, so its `end live=0 leaked=0` is accepted. -/
+theorem monitor_accepts_model_end (s : AfStep.S) (ms : Spec.AfMon.MState) (h : Rel s ms) :
+    (Spec.AfMon.monStep ms .end_ (AfStep.stepOp s .end_).2.ans).2 = none ∧ (AfStep.releaseAll s).m.live = 0 :=
+  ⟨end_sound s ms h, Proofs.AfMonEnd.releaseAll_live s h.acct (Proofs.AfMonEnd.side_of_regRel h.reg)⟩
+
+open Percival.Proofs.AfMonSound in
+/-- **Whole cases**: for every sequence of protocol ops in which `end` occurs at most as the last line and every
+`reg_imm` has a priority below 32 (`OpsOk`; both hold for every case the generator or the corpus contains), under
+whatever failure schedules the case sets, the monitor accepts every answer of the model
+(`answered s ops` pairs each op with the model's answer `(stepOp s op).2.ans` along the run). -/
+theorem monitor_accepts_model (ops : List Spec.AfMon.Op) (hok : OpsOk ops) :
+    Spec.AfMon.acceptsRun {} (Proofs.AfMonReg.answered {} ops) = true :=
+  sound ops hok
+
+/-- heap, immediate event, timer, descriptor registration, under `failat 5`, two event-loop passes, `end` -/
+example : Proofs.AfMonSound.OpsOk [.failat 5, .hInit, .hAdd 5 7, .hAdd 3 2, .hMin, .regImm 7 3, .regTm 8 100,
+    .regNet 2 4 false, .regNet 9 4 false, .hDelmin, .run, .clock 1000, .run, .cancelNet 4 false, .end_] := by
+  refine ⟨by simp [Proofs.AfMonSound.EndLast], fun op hop => ?_⟩
+  simp only [List.mem_cons, List.mem_nil_iff, or_false] at hop
+  rcases hop with rfl | rfl | rfl | rfl | rfl | rfl | rfl | rfl | rfl | rfl | rfl | rfl | rfl | rfl | rfl <;>
+    simp [Proofs.AfMonEnd.OpOk]
+
+/-- without `OpOk` the statement is false: `reg_imm 0 40` registers nothing, is answered `ok`, and keeps two blocks -/
+example : Spec.AfMon.acceptsRun {} (Proofs.AfMonReg.answered {} [.regImm 0 40, .end_]) = false := by decide +kernel
+
+/-! ## Monitor soundness: `pmodel upmon` (`Spec.UpMon.monStep`) raises no false alarm on `pmodel upmodel`
+
+`Proofs.UpMonSound.UInv s`: the world satisfies `Inv` and the accounting `EvAcct` (both independent of the oracle's
+decision function, so a schedule line keeps them), the harness' handle tables name **exactly** the objects of the
+world that are not owned by another object (distinct handles below 32, distinct objects), readers' and writers'
+descriptors are slots (< 88), and the length the harness believes reserved in a writer is available.  From it:
+the pre-checks of `callOf` put every call inside the library's contract (`Ready`, or one of the two legal situations
+`Ready` does not cover: `netbuf_read_wait(0)` on a busy descriptor, `netbuf_write_consume/write` while the writer's own
+transfer is registered), so a failure has `rf > 0` (`upper_failure_needs_refusal`); every release the harness makes
+names an object that is `Present`, so it is `ok`, never `model-contract` (`upper_release_cannot_fail`); the harness'
+release order empties every table, so `end` shows `live=0` (`atexitAll_frees_everything`). -/
+
+open Percival.Proofs.UpMonSound in
+/-- **One line** of `pmodel upmodel` from a state satisfying `UInv` is accepted by `Spec.UpMon.monStep`, and `UInv`
+holds afterwards.  `WF s op` is the one thing not derived: for `nc_start` / `hq_start`, that the descriptor
+`freshFd` picks has no write registration and fewer than 2^32 timers exist (the connect-specific part of `Ready`;
+`freshFd` avoids only the sockets of outstanding connects, so it could reach a slot descriptor 64..87 only with
+more than 60 connects outstanding, which 32 + 32 handles do not allow — that counting argument is what is
+missing).  For every other op `WF s op` holds trivially. -/
+theorem up_monitor_accepts_model_step_partial (s : UpStep.S) (op : UpStep.Op) (h : UInv s) (wf : WF s op) :
+    (Spec.UpMon.monStep () (UpStep.kindOf op) (UpStep.stepOp s op).2.ans).2 = none ∧ UInv (UpStep.stepOp s op).1 :=
+  up_step_sound s op h wf
+
+example : Proofs.UpMonSound.UInv ({} : UpStep.S) := Proofs.UpMonSound.uinv_init
+/-- `WF` is trivial for an op that is not a connect -/
+example (s : UpStep.S) : Proofs.UpMonSound.WF s (.start .read 0 0) :=
+  ⟨fun a tm l fd h => by
+    rcases h with h | h <;> (simp only [UpStep.callOf] at h; split at h <;> (try split at h) <;> cases h)⟩
+/-- the monitor is not trivial: `fail rf=0` is rejected -/
+example : (Spec.UpMon.monStep () .call { head := .fail, ntoks := 2, rf := some 0 }).2 ≠ none ∧
+    (Spec.UpMon.monStep () .call { head := .fail, ntoks := 2, rf := some 1 }).2 = none := by decide
+
+open Percival.Proofs.UpMonSound in
+/-- **Whole cases** from the initial state: every line of a run in which every connect is `WF` is accepted.
+(Full statement, open: the same without `WFRun`, for every op list with fewer than 57 `nc_start` / `hq_start` lines.) -/
+theorem up_monitor_accepts_model_partial (ops : List UpStep.Op) (wf : WFRun {} ops) :
+    ∀ p ∈ (UpStep.runOps {} ops).zip ops,
+      (Spec.UpMon.monStep () (UpStep.kindOf p.2) p.1.2.ans).2 = none :=
+  up_run_sound {} ops uinv_init wf
 
 end Percival.C14
